@@ -24,11 +24,16 @@ func newRollingSetup(w *World, ro RollingOpts) *Setup {
 	method := []string{"RollingInPlace", "RollingRecreate"}[t.Pick(2, "rmethod")]
 	kind := []*Resource{ResWidget, ResGadget, ResConfigMap}[t.Pick(3, "rkind")]
 	rule := ChildRule{Res: kind, Method: method}
-	switch t.Pick(3, "checks") {
+	healthyStatus := "True"
+	switch t.Pick(4, "checks") {
 	case 1:
 		rule.StatusChecks = []Object{{"type": "Ready", "status": "True"}}
 	case 2:
 		rule.StatusChecks = []Object{{"type": "Ready", "status": "True", "reason": "Sim"}}
+	case 3:
+		// only type and reason are checked: the condition's status may be anything
+		rule.StatusChecks = []Object{{"type": "Ready", "reason": "Sim"}}
+		healthyStatus = []string{"True", "False", "Unknown"}[t.Pick(3, "healthystatus")]
 	}
 	cfg.Children = []ChildRule{rule}
 	if t.Pick(3, "second") == 2 {
@@ -58,7 +63,7 @@ func newRollingSetup(w *World, ro RollingOpts) *Setup {
 	case 1:
 		tp.OwnUpdated = true
 	}
-	s := &Setup{W: w, Cfg: cfg, Opts: opts, TP: tp}
+	s := &Setup{W: w, Cfg: cfg, Opts: opts, TP: tp, HealthyStatus: healthyStatus}
 	mustCreate(w.Store, ResCompositeCtl, "", cfg.Object(), "setup")
 	s.Progs = Programs{"cc": &Program{Sync: tp.SyncResponse, Finalize: tp.FinalizeResponse}}
 	w.HookProgram = s.Progs.Answer
@@ -79,7 +84,7 @@ func newRollingSetup(w *World, ro RollingOpts) *Setup {
 	s.Sig["statusChecks"] = fmt.Sprint(len(rule.StatusChecks) > 0)
 	w.Cfg["parent"] = cfg.Parent.Kind
 	w.Cfg["rolling"] = kind.Kind + ":" + method
-	w.Cfg["checks"] = fmt.Sprint(len(rule.StatusChecks))
+	w.Cfg["checks"] = fmt.Sprintf("%s healthy=%s", jsonString(rule.StatusChecks), healthyStatus)
 	w.Cfg["fieldPaths"] = strings.Join(cfg.FieldPaths, ",")
 	w.Cfg["gensel"] = fmt.Sprint(cfg.GenerateSelector)
 	w.Cfg["ownUpdated"] = fmt.Sprint(tp.OwnUpdated)
